@@ -439,10 +439,12 @@ def check_scalars(ctx, subject, tf, x, r):
                 continue
             s = float(s.reshape(-1)[0])
             a = float(res["a"][i])
-            dev = abs(s - a) / max(abs(a), 1e-300) if np.isfinite(a) and np.isfinite(s) else (0.0 if (s == a or (np.isnan(s) and np.isnan(a))) else np.inf)
+            floor = 1e-3 * float(np.max(np.abs(res["a"][np.isfinite(res["a"])]))) if np.any(np.isfinite(res["a"])) else 0.0
+            dev = abs(s - a) / max(abs(a), floor, 1e-300) if np.isfinite(a) and np.isfinite(s) else (0.0 if (s == a or (np.isnan(s) and np.isnan(a))) else np.inf)
             if dev > worst:
                 worst, wname = dev, name
-    ctx.check("scalar-equals-array", subject, worst, 1e-8, sig=f"scalar!=array:{wname}", detail={"method": wname, "rel": worst})
+    ctx.check("scalar-equals-array", subject, worst, 1e-6,  # largest seen 6.8e-10 (deriv3_inverse: 1-ulp pow differences amplified by 3*d2^2 - d1*d3)
+               sig=f"scalar!=array:{wname}", detail={"method": wname, "rel": worst})
 
 
 def check_endpoints(ctx, subject, hookcls, I, tf, ends):
